@@ -518,11 +518,11 @@ def rule_r5(F, rep):
 
 
 def run(F, rep, tier):
-    rule_r1(F, rep)
-    rule_r2(F, rep)
-    rule_r3(F, rep)
-    rule_r4(F, rep)
-    rule_r5(F, rep)
+    rep.attempt(rule_r1, F, rep)
+    rep.attempt(rule_r2, F, rep)
+    rep.attempt(rule_r3, F, rep)
+    rep.attempt(rule_r4, F, rep)
+    rep.attempt(rule_r5, F, rep)
     rep.assume("print/re-parse stability is not decided (no printer exists in the repository); node span containment "
                "is not decided")
     return EXPLANATION
